@@ -4,6 +4,7 @@ error marking of everything on the stack) with the engine: for generated module 
 requests, throwing bodies — served by a counting in-memory loader, the sequence of bodies run and the outcome of every Evaluate
 (the first, a repeated one, and later ones of other modules of the same graph) must be what the model computes; each
 (referrer, specifier) pair is requested from the host once and each module parsed once; imported bindings are live."""
+import json
 import re
 
 import lib
@@ -11,6 +12,8 @@ import lib
 
 def gen_graph(r, kind):
     n = 1 + r() % 8
+    if kind == "dense":
+        n = 3 + r() % 4
     deps = []
     for m in range(n):
         k = r() % 4 if n > 1 else r() % 2
@@ -28,8 +31,18 @@ def gen_graph(r, kind):
     for _ in range(r() % 3 if r() % 2 else 0):
         throws[r() % n] = 1
     roots = [0]
-    for _ in range(r() % 4):
-        roots.append(r() % n if r() % 2 else 0)
+    if kind == "dense":
+        # every module is evaluated afterwards: what each of them recorded becomes visible
+        order = list(range(n))
+        for i in range(n - 1, 0, -1):
+            j = r() % (i + 1)
+            order[i], order[j] = order[j], order[i]
+        roots += order
+        if not any(throws):
+            throws[r() % n] = 1
+    else:
+        for _ in range(r() % 4):
+            roots.append(r() % n if r() % 2 else 0)
     return n, deps, throws, roots
 
 
@@ -38,7 +51,26 @@ def request(deps, throws, roots, style):
                                                      "".join(map(str, throws)), ",".join(map(str, roots)), style)
 
 
+# top-level await is outside the Lean model: these scenarios carry an expected trace worked out by hand from ECMA-262 16.2.1.5.3
+# (AsyncModuleExecutionFulfilled / GatherAvailableAncestors); they are regression tests, not proofs
+TLA = [
+    # a cycle whose root awaits; a later importer of a cycle member must wait for the cycle root
+    ({"main": "import 'a'; import 'c'; print('main');", "a": "import 'b'; print('a:start'); await null; await null; await null; print('a:end');",
+      "b": "import 'a'; print('b');", "c": "import 'b'; print('c');"}, ["main"], "trace=b,a:start,a:end,c,main outcomes=-"),
+    # an awaiting leaf delays its importers, not its siblings
+    ({"main": "import 'x'; import 'y'; print('main');", "x": "print('x:start'); await null; print('x:end');", "y": "print('y');"}, ["main"],
+     "trace=x:start,y,x:end,main outcomes=-"),
+    # a cycle root that rejects after an await: a later importer of a member rejects with the same error and does not run
+    ({"root": "import 'a'; print('root');", "a": "import 'b'; print('a:start'); await null; throw new Error('boom-a');", "b": "import 'a'; print('b');",
+      "d": "import 'b'; print('d');"}, ["root", "d", "b"], "trace=b,a:start outcomes=boom-a,boom-a,boom-a"),
+    # evaluating an async graph twice runs nothing twice
+    ({"main": "import 'x'; print('main');", "x": "print('x:start'); await null; print('x:end');"}, ["main", "main", "x"], "trace=x:start,x:end,main outcomes=-,-,-"),
+]
+
 FIXED = [
+    ([[1, 2], [3, 0], [3], [1]], [1, 0, 0, 0], [0, 2, 1, 3]),   # a cross edge into a cycle whose root throws: the error is recorded on every member
+    ([[1, 2], [3, 0], [3], [1]], [0, 0, 0, 0], [0, 2, 1, 3]),
+    ([[1, 3], [2], [1, 0], [2]], [1, 0, 0, 0], [0, 3, 2]),
     ([[1, 2], [3], [3], []], [0, 0, 0, 0], [0, 0, 2]),          # diamond
     ([[1, 2], [3], [3], []], [0, 1, 0, 0], [0, 0, 2, 3]),       # error in the middle; later evaluate siblings
     ([[1], [2], [0]], [0, 0, 0], [0, 1, 2]),                    # cycle
@@ -63,7 +95,7 @@ def run(ck):
     quick = ck.tier == "quick"
     cases = [(d, t, ro) for d, t, ro in FIXED]
     for i in range(400 if quick else 10000):
-        n, deps, throws, roots = gen_graph(r, "dag" if i % 3 == 0 else "any")
+        n, deps, throws, roots = gen_graph(r, ["dag", "any", "dense"][i % 3])
         cases.append((deps, throws, roots))
     reqs = [request(d, t, ro, i % 2) for i, (d, t, ro) in enumerate(cases)]
     model = ck.driver("drv-c17", reqs)
@@ -97,6 +129,13 @@ def run(ck):
             ck.fail_input({"site": "module-fetched-more-than-once", "input": q, "expected": "loads<=1 parses<=1", "actual": "loads=%s parses=%s" % (ef.get("loads"), ef.get("parses"))})
         if ef.get("live", "").startswith("bad"):
             ck.fail_input({"site": "imported-binding-not-live", "input": q, "expected": "live=ok", "actual": ef.get("live")})
+    tla_reqs = ["raw roots=%s %s" % (",".join(roots), " ".join("%s=%s" % (k, v.encode().hex()) for k, v in mods.items())) for mods, roots, _ in TLA]
+    rc, out, err = ck.run_bin(bins["c17"], input="\n".join(tla_reqs) + "\n")
+    got = [x for x in out.split("\n") if x]
+    for (mods, roots, want), q, g in zip(TLA, tla_reqs, got + ["missing"] * len(TLA)):
+        if g != want:
+            ck.fail_input({"site": "top-level-await-scenario", "input": json.dumps(mods), "roots": roots, "expected": want, "actual": g,
+                           "oracle": "trace worked out by hand from ECMA-262 16.2.1.5.3 (regression scenario, outside the Lean model)"})
     ck.oblige("correspondence:bodies run and Evaluate outcomes == C17 model on %d module graphs (%d bodies)" % (len(cases), stats["bodies"]), "correspondence", True)
     ck.coverage.update({
         "evaluations": len(cases),
